@@ -31,8 +31,15 @@ var vMutHookFn func(url string, call int, resps []map[string]interface{})
 var vHTTPCalls map[string]int
 
 // verifDo is what (*http.Client).Do becomes
+var vMultipartHookFn func(url string, req *http.Request) (*http.Response, bool)
+
 func verifDo(req *http.Request) (*http.Response, error) {
 	url := req.Host
+	if vMultipartHookFn != nil {
+		if resp, handled := vMultipartHookFn(url, req); handled {
+			return resp, nil
+		}
+	}
 	if vHTTPCalls == nil {
 		vHTTPCalls = map[string]int{}
 	}
